@@ -156,9 +156,11 @@ Print Assumptions c04_dst_fin_ack_ends.
 (* ------------------------------------------------------------------ receiver: NAK sequences awaiting missing data
    (re-issue on expiry k < N: c06_deferred_issue; nothing before expiry: c06_deferred_wait) *)
 (* expiry N: NAK Limit Reached is declared and, its handler not being IGNORE, the call ends there (after the F22 repair
-   the handler IGNORE lets the procedure continue: c14_dest_nak_limit_ignored_continues, props/C14.v) *)
+   the handler IGNORE lets the procedure continue: c14_dest_nak_limit_ignored_continues, props/C14.v).
+   After the F35 repair the procedure of a cancelled transaction does nothing (c04_dst_nak_cancelled_nothing below), so
+   without `p_disp (d_p s) <> DISP_CANCELED` the statement is false: RetryProofs.NakCounterExamples.not_cancelled_needed *)
 Theorem c04_dst_nak_limit : forall s r eos t,
-  p_deferred (d_p s) = true -> p_rcfg (d_p s) = Some r -> p_file_size_eof (d_p s) = Some eos ->
+  p_deferred (d_p s) = true -> p_disp (d_p s) <> DISP_CANCELED -> p_rcfg (d_p s) = Some r -> p_file_size_eof (d_p s) = Some eos ->
   (p_tracker (d_p s) <> [] \/ p_md_missing (d_p s) = true) ->
   p_proc_timer (d_p s) = Some t -> timed_out (now_d s) t = true -> p_nak_counter (d_p s) + 1 = r_nak_limit r ->
   get_fault_handler (l_faults (d_cfg s)) C_NAK_LIMIT <> Some FH_IGNORE ->
@@ -166,6 +168,15 @@ Theorem c04_dst_nak_limit : forall s r eos t,
     (fst (declare_fault C_NAK_LIMIT s), match snd (declare_fault C_NAK_LIMIT s) with Ok _ => Ok tt | Err e => Err e end).
 Proof. exact dst_nak_limit. Qed.
 Print Assumptions c04_dst_nak_limit.
+
+(* a cancelled transaction (F35 repair): the NAK procedure does nothing, whatever its timer, counter and tracker say:
+   no NAK, no limit fault, no completion; the cancel condition stands.  Before the repair the procedure ran in the
+   call in which a PDU had cancelled the transaction (File Size Error by a File Data PDU beyond the EOF file size,
+   Filestore Rejection by a late Metadata PDU) and, the tracker emptied by that PDU, finished it with No Error. *)
+Theorem c04_dst_nak_cancelled_nothing : forall s,
+  p_disp (d_p s) = DISP_CANCELED -> deferred_lost_segment_handling s = (s, Ok tt).
+Proof. exact dst_deferred_cancelled. Qed.
+Print Assumptions c04_dst_nak_cancelled_nothing.
 
 (* progress (a missing segment or the Metadata arriving) zeroes the NAK counter and restarts the timer *)
 Theorem c04_dst_nak_progress_resets : forall s t,
